@@ -170,6 +170,16 @@ def run_case(case: dict[str, Any]) -> dict[str, Any]:
             if c['t'] > exp + 1e-3:
                 viol.append({'mech': 'raw-event-delayed', 'msg': f"@on.event for {c['uid']} rv={c['rv']} ran at t={c['t']}; the event was delivered at t={t0} and the object's worker "
                              f"was free from t={round(exp, 6)}: it must not wait for the consistency barrier", 'witness': None})
+    # ---- ... and none is skipped: every event delivered (well before the end) reaches the probe
+    if w.quiesced and any(h['kind'] == 'event' for h in desc['handlers']):
+        for key, ds in deliveries.items():
+            inc = w.incs.get(key[0])
+            if inc is None or inc.killed:
+                continue
+            seen_rvs = {c['rv'] for c in probes.get(key, [])}
+            for t0, rv, typ in ds:   # type: ignore[misc]
+                if t0 <= (w.t_quiesced or 0) - 1.0 and rv not in seen_rvs:
+                    viol.append({'mech': 'raw-event-skipped', 'msg': f"the {typ} event rv={rv} of {key[1]} was delivered at t={t0} but never reached the @on.event handler", 'witness': None})
     # ---- daemons start when the object is first seen
     for c in ix.calls:
         if c['kind'] == 'daemon' and not c.get('post_mortem'):
